@@ -64,6 +64,20 @@ SemEq(dd, smi) ==          \* the library's decoded SMILES denotes dd's molecule
                THEN "decoded: neighbour order"
           ELSE ""
 
+(* C17, encoder side: the j-th atom symbol of the output (the symbol that   *)
+(* creates atom j in the specification's decoding) is attributed to the     *)
+(* j-th atom token of the input                                             *)
+EAttrClause(g, dd, r) ==
+  LET A == r.eattr
+      S == SelectSeq(Split(r.sel), LAMBDA t : t # ".")
+  IN IF \E j \in 1..Len(g.atoms) :
+          LET p == dd.atoms[j].attr[Len(dd.atoms[j].attr)].idx
+          IN ~\E k \in 1..Len(A) :
+                /\ A[k].idx = p /\ A[k].tok = S[p + 1] /\ A[k].has
+                /\ \E m \in 1..Len(A[k].att) : A[k].att[m].i = g.atoms[j].tok /\ A[k].att[m].sym = g.atoms[j].txt
+     THEN "a SELFIES atom symbol is not attributed to the SMILES atom token it was made from"
+     ELSE ""
+
 Verdict(r) ==
   IF r.kind \notin {"ok", "EncoderError"} THEN <<"C09", "exception type " \o r.kind>>
   ELSE
@@ -95,6 +109,7 @@ Verdict(r) ==
              THEN <<"C06", "strict accepted a molecule with an atom above its capacity">>
         ELSE IF SemEq(dd, r.dec) # "" THEN <<"C02", SemEq(dd, r.dec)>>
         ELSE IF r.reenc # r.sel THEN <<"C10", "re-encoding the decoded SMILES gives a different SELFIES string">>
+        ELSE IF "eattr" \in DOMAIN r /\ EAttrClause(g, dd, r) # "" THEN <<"C17", EAttrClause(g, dd, r)>>
         ELSE <<"", "">>
 
 Init == tid = 1 /\ nbad = 0
